@@ -67,9 +67,11 @@ def gen(rng):
         return "mk%03dq" % n[0]
 
     base = ("proj/" + srcrel).rstrip("/")
-    dirs = ["", "net", "net/tls", "net/tls/deep", "net/tls/deep/er", "util", "d.rs", "x.rsx", ".hid"]
+    dirs = ["", "net", "net/tls", "net/tls/deep", "net/tls/deep/er", "util", "d.rs", "x.rsx", ".hid", "v1.2", "gen.d", "example.com",
+            "a/b/c/d/e/f/g/h/i/j/k/l", "with space", "ünï", "n" * 200, "-dash", "~tilde"]
     names = ["main.rs", "lib.rs", "a.RS", "a.rsx", "a.rs.bak", "rs", ".rs", "a.", "a.rs~", "b.txt", ".hidden.rs", "a.b.rs", "Makefile",
-             "c.Rs", "rsfile", "x.rs.rs", "notes.bak", "a.xrs", "b.srs", "c.ttxt", "d.r", "e.s"]
+             "c.Rs", "rsfile", "x.rs.rs", "notes.bak", "a.xrs", "b.srs", "c.ttxt", "d.r", "e.s", "with space.rs", "ünï.rs", "-.rs",
+             ("l" * 240) + ".rs", "a..rs", "a.rs.", "A.rs", "a.rS"]
     for _ in range(rng.randrange(6, 16)):
         d = rng.choice(dirs)
         nm = rng.choice(names)
